@@ -1136,7 +1136,7 @@ class Command(Frame):
     def get_zone_setpoint(cls, ctl_id: DeviceIdT | str, zone_idx: _ZoneIdxT) -> Command:
         """Constructor to get the setpoint of a zone (c.f. parser_2309)."""
 
-        return cls.from_attrs(W_, ctl_id, Code._2309, _check_idx(zone_idx))
+        return cls.from_attrs(RQ, ctl_id, Code._2309, _check_idx(zone_idx))
 
     @classmethod  # constructor for W|2309  # TODO: check if setpoint can be None
     def set_zone_setpoint(
